@@ -60,14 +60,14 @@ def run(chk, build):
     # entries of generate / merge_models) while the other pipeline runs to its end, then resumes.  Deterministic, replayable.
     sjobs = []
     pairs = [("g", "h"), ("h", "g"), ("g", "i"), ("i", "h"), ("e", "f"), ("a", "c"), ("b", "d"), ("j", "k"),
-             ("a", "b"), ("b", "a"), ("a", "j"), ("e", "b")] if tier == "quick" else list(itertools.permutations(PIPE, 2))
+             ("a", "b"), ("b", "a"), ("a", "j"), ("e", "b")] if tier == "quick" else [p for i, p in enumerate(itertools.permutations(PIPE, 2)) if i % 3 == 0]
     for pa, pb in pairs:
-        for j in range(1, 25 if tier == "quick" else 61):
+        for j in range(1, 25 if tier == "quick" else 41):
             sjobs.append(((pa, pb), [[0, j], [1, 10 ** 6]]))
     # three segments: A stopped at its j-th point, B at its k-th, A runs to its end while B is still inside its own render
     for pa, pb in ([("j", "k"), ("k", "j"), ("j", "j")] if tier == "quick" else pairs):
-        for j in (range(3, 18, 3) if tier == "quick" else range(1, 40, 2)):
-            for k in (range(3, 18, 3) if tier == "quick" else range(1, 40, 3)):
+        for j in (range(3, 18, 3) if tier == "quick" else range(2, 32, 3)):
+            for k in (range(3, 18, 3) if tier == "quick" else range(2, 32, 4)):
                 sjobs.append(((pa, pb), [[0, j], [1, k], [0, 10 ** 6]]))
     for (names, segs), res in clirun.parallel(scheduled, sjobs, workers=8):
         chk.count(key=("sched", names, json.dumps(segs)), sample={"threads": list(names), "schedule": segs} if len(chk.samples) < 4 else None)
